@@ -39,6 +39,14 @@ Definition cfg_ok (c : bcfg) : bool :=
   String.eqb (c_first_sel c) "start" && String.eqb (c_rest_sel c) "end" && Nat.eqb (c_rest_from c) 1 &&
   Nat.eqb (c_b2c_inc c) 1 && Nat.eqb (c_ob2c_init c) 0 && Nat.eqb (c_ob2c_inc c) 1.
 
+
+(* the guards that keep every offset of the rewritten text inside u16 (what `as u16` in resolve_best_path,
+   NodeSplitIterator and Node::new relies on): rejects every original longer than a limit <= 65535, and
+   resolve_edits leaves early as soon as the running length exceeds a limit <= 65535 *)
+Definition guards_ok (c : bcfg) : bool :=
+  String.eqb (c_start_cmp c) ">" && N.leb (c_start_limit c) 65535 &&
+  String.eqb (c_resolve_cmp c) ">" && N.leb (c_resolve_limit c) 65535.
+
 Definition cmp_eval (op : string) (a b : Z) : bool :=
   if String.eqb op ">" then Z.ltb b a
   else if String.eqb op ">=" then Z.leb b a
